@@ -246,6 +246,52 @@ def tie_a(prop, tier, seed):
     return cases, dis, stats
 
 
+# ------------------------------------------------------------------ behaviour correspondence (tie B)
+ALL_TAGS = ['eq', 'cmp', 'pcmp', 'hash', 'clone', 'default', 'debug', 'debugp', 'zeroize', 'drop']
+TIEB_TAGS = {
+    'C02': ALL_TAGS, 'C03': ['eq'], 'C04': ['cmp', 'pcmp'], 'C05': ['eq', 'cmp', 'pcmp', 'hash'], 'C06': ALL_TAGS,
+    'C07': ['eq', 'pcmp'], 'C08': ['hash'], 'C09': ['clone'], 'C10': ['debug', 'debugp'], 'C11': ['default'],
+    'C12': ['eq', 'cmp', 'pcmp'], 'C13': ALL_TAGS, 'C18': ['zeroize'], 'C19': ['drop'],
+}
+
+
+def tie_b(prop, cases, seed, tier, priority):
+    """compile the probe crate with the real macro, run it, compare with Sem(Gen) and Spec.  Returns (stats, problems)."""
+    import concurrent.futures
+    import tieb
+    if prop not in TIEB_TAGS:
+        return None, []
+    cfgs = PROPS[prop]['cfgs']
+    limit = 250 if tier == 'quick' else 1200
+    out, problems = {}, []
+    with concurrent.futures.ThreadPoolExecutor(max_workers=5) as ex:
+        futs = {ex.submit(tieb.run, c, cases, seed, limit, None, None, priority): c for c in cfgs}
+        for f in concurrent.futures.as_completed(futs):
+            st, pr = f.result()
+            out[futs[f]] = st
+            problems += pr
+    # C13: the real observations must be identical under default / safe / nightly (and zeroize for std traits)
+    if prop == 'C13':
+        base = out.get('default', {}).get('_iobs', {})
+        for c in cfgs:
+            if c == 'default':
+                continue
+            for cid, io in out[c].get('_iobs', {}).items():
+                b = base.get(cid)
+                if b is None or io is None:
+                    continue
+                for tag in sorted(set(b) & set(io)):
+                    if b[tag] != io[tag]:
+                        problems.append(dict(kind='cfg-difference', cfg=c, case=cid, tag=tag[2:], default=b[tag][:3], other=io[tag][:3],
+                                             src=next(item_txt(it) for k, it in cases if k == cid)))
+                        break
+    stats = dict(items=sum(s['compared'] for s in out.values()), values=sum(s['values'] for s in out.values()),
+                 observations=sum(s['observations'] for s in out.values()),
+                 per_cfg={c: {k: v for k, v in s.items() if not k.startswith('_')} for c, s in out.items()},
+                 samples=[x for s in out.values() for x in s.get('_samples', [])][:3])
+    return stats, problems
+
+
 # ------------------------------------------------------------------ known findings
 def known_findings(prop, cases):
     """open findings of this property whose witness still shows the failing construct in the REAL expansion"""
@@ -313,6 +359,43 @@ def check(prop, tier, seed):
                             'the theorems of coq/Props/%s.v are about the model and no longer transfer to the code' % prop,
                        replay_cmd='./dwv replay <this file>')
         violations.append((payload, False))
+    # 3. behaviour: real rustc, real macro; doubles as the search for a failing input
+    bstats, bprobs = tie_b(prop, cases, seed, tier, {d['case'] for d in mine})
+    kf_cases = {}
+    if os.path.exists(os.path.join(VERIF, 'known_findings.json')):
+        kf_cases = {f['case']: f for f in json.load(open(os.path.join(VERIF, 'known_findings.json'))).get('open', [])}
+    tieA_cases = {(d['cfg'], d['case']) for d in dis}
+    model_sem_mismatch = []
+    found_cases = set()
+    for p in bprobs:
+        if p['case'] in kf_cases:
+            continue
+        owned = False
+        if p['kind'] == 'behaviour' and p['against'] == 'R':
+            owned = p['tag'] in TIEB_TAGS.get(prop, [])
+        elif p['kind'] == 'behaviour' and p['against'] == 'G':
+            if (p['cfg'], p['case']) not in tieA_cases:
+                model_sem_mismatch.append(p)
+            continue
+        elif p['kind'] == 'compile':
+            owned = prop == 'C02'
+        elif p['kind'] == 'abort':
+            owned = prop in ('C12', 'C02') or p.get('tag') in TIEB_TAGS.get(prop, [])
+        elif p['kind'] == 'cfg-difference':
+            owned = prop == 'C13'
+        if owned and len(found_cases) < 5:
+            found_cases.add(p['case'])
+            q = {k: v for k, v in p.items() if k != 'values'}
+            violations.insert(0, (dict(kind='failing-input', property=prop, observed=q,
+                                       note='the real macro, compiled by rustc and run on this input, contradicts the reference semantics of the property',
+                                       replay_cmd='./dwv replay <this file>'), True))
+    # a correspondence break that the behaviour run explains counts as found
+    if found_cases:
+        violations = [v for v in violations if v[1] or v[0].get('kind') != 'correspondence' or v[0]['disagreement']['case'] not in found_cases]
+    # accept/reject flips and panics ARE the failing input for the front-end properties
+    for n, (payload, found) in enumerate(violations):
+        if not found and payload.get('kind') == 'correspondence' and payload['disagreement']['kind'] == 'status' and prop in ('C15', 'C16', 'C02'):
+            violations[n] = (payload, True)
     known = known_findings(prop, cases)
     wall = time.time() - t0
     samples = list(audit.get('statements', []))[:2]
@@ -331,6 +414,7 @@ def check(prop, tier, seed):
             programs=stats['cases'], traces_validated_against_impl=stats['compared'],
             correspondence=stats, disagreements_owned=len(mine), disagreements_other_properties=others,
             known_findings_reproduced=[k['id'] for k in known],
+            behaviour=bstats if bstats else 'not applicable to this property',
             samples=samples, exhaustive=False),
         assumptions=TRUSTED_BASE)
     write_evidence(prop, ev)
@@ -339,6 +423,12 @@ def check(prop, tier, seed):
              stats['tokens_compared'], len(dis), len(mine), wall))
     for k in known:
         print('KNOWN-FINDING: property=%s %s %s' % (prop, k['id'], k['what']))
+    if bstats:
+        print('behaviour (real rustc): %d items, %d values, %d observations compared with Sem(Gen) and Spec; %d problems (%d on known-finding witnesses)' % (bstats['items'], bstats['values'], bstats['observations'], len(bprobs), len([p for p in bprobs if p['case'] in kf_cases])))
+    if model_sem_mismatch and not violations:
+        p = model_sem_mismatch[0]
+        print('MODEL-SEMANTICS-MISMATCH (no verdict): Sem.v disagrees with rustc on %s %s tag=%s' % (p['cfg'], p['case'], p['tag']))
+        return 2
     if stats['generator_errors']:
         print('note: %d generated items were not parsable Rust (generator bug, ignored)' % stats['generator_errors'])
     if not violations:
